@@ -60,3 +60,11 @@ theorem C09_gen_count_terminate (t r su f i : Nat) (s : Status) :
 
 /-- `Count.setup` zeroes every counter -/
 theorem C09_gen_count_setup : Gen.Count_setup = (0, 0, 0, 0, 0) := rfl
+
+/-- `StatusToBlackboard.update()`: answers the child's status and publishes exactly that status under the decorator's
+    variable (the model splits the two: `decUpdate` for the answer, `decPublish` for the write) -/
+theorem C09_gen_statusToBlackboard (e : Env) (key : String) (path : List String) (cs : Status) :
+    decUpdate e (.statusToBB key path) cs = (.statusToBB key path, (Gen.StatusToBlackboard_update cs).1, false) ∧
+    ∃ v, (Gen.StatusToBlackboard_update cs).2 = some v ∧
+      ∀ w, decPublish (.statusToBB key []) cs w = .ok (w.set key (.status v)) := by
+  refine ⟨rfl, cs, by simp [Gen.StatusToBlackboard_update], fun w => rfl⟩
